@@ -185,6 +185,18 @@ class StubSim(mosaik_api_v3.Simulator):
         elif sp.get("explicit_time"):
             data["time"] = self.time
         for eid in sorted(outputs):
+            if eid == "k" and sp.get("child"):
+                # the child entity of model K (roles swapped): `eo` is its persistent output
+                # (token A3K), `po` its event output (A3Ke, when the step emits)
+                want = outputs[eid]
+                ent = {}
+                if "eo" in want:
+                    ent["eo"] = None if none_now else f"{self.sid}{k}K"
+                if d is not None and "po" in want:
+                    ent["po"] = None if none_now else f"{self.sid}{k}Ke"
+                if ent:
+                    data[eid] = ent
+                continue
             if eid not in ("e", "f"):
                 continue
             want = outputs[eid]
